@@ -8,7 +8,6 @@ import (
 	"go/ast"
 	"go/token"
 	"go/types"
-	"strings"
 )
 
 func init() { register("C13", false, checkC13) }
@@ -20,21 +19,15 @@ type c13 struct {
 }
 
 func checkC13(c *Ctx) {
-	c.Rule("C13.R1", "no stutter path in the curve simplifier: no header-to-header path of an outer loop that leaves every variable its conditions read unchanged and is feasible on the first iteration (definite non-termination)")
-	c.Rule("C13.R2", "the output is a fresh slice; every vertex appended to it is an element of the input curve, which is never written; the first append is the curve's first vertex; the exit flag is only raised right after appending the curve's last vertex and is the only way out of the scan")
-	c.Rule("C13.R3", "every vertex appended after skipping input vertices is dominated by the simplicity test of the replacing segment against kept output, remaining input and the other curves, or by adjacency to the previous kept vertex")
+	c.Rule("C13.R1", "model evaluation: LineString.Simplify and Polygon.Simplify interpreted on curves of 0–5 (thorough: 6) vertices with the point-to-segment distance and the simplicity test replaced by oracles, every combination of answers to the questions actually asked enumerated: every run returns (no run exceeds the iteration bound, none panics)")
+	c.Rule("C13.R2", "model evaluation, same runs: the result is a fresh slice holding an order-preserving subsequence of the input curve's vertices that starts with the first and ends with the last (empty for an empty curve); the input is unchanged")
+	c.Rule("C13.R3", "model evaluation, same runs: for every pair of consecutive kept vertices the distance of each dropped vertex to the replacing segment was asked and answered 'within tolerance'; when vertices were dropped the replacing segment was tested — and found simple — against the kept output before it, the rest of the curve and the other curves")
 	c.Rule("C13.R5", "the deviation of a skipped vertex is its distance to the replacing *segment*: the point-to-segment distance clamps the projection parameter to [0,1] and never divides 0 by 0")
 	c.Rule("C13.R6", "the segment-intersection routine behind the simplicity test is exact: a tolerance that multiplies the squared segment lengths in its parallel/collinear tests is the constant 0 (a positive one classifies a shallow crossing as parallel and reports no intersection)")
 	c.Rule("C13.R4", "Multi* Simplify methods simplify member i into index i of a fresh result over the full range; Polygon.Simplify passes the whole polygon as the other curves")
 	a := &c13{c: c, info: c.P.Pkg("geom").TypesInfo}
+	c13model(c)
 	a.members()
-	if a.curve == nil {
-		c.Unk("C13.R1", "geom#curve-simplifier", token.NoPos, "the function simplifying one curve was not found below the Simplify methods")
-		return
-	}
-	a.termination()
-	a.subsequence()
-	a.vetting()
 	checkSegmentDistance(c, "C13.R5")
 	a.exactCrossing()
 	c.Floor("C13.R6", 1)
@@ -152,471 +145,6 @@ func (a *c13) members() {
 }
 
 // ---------------------------------------------------------------- R1
-
-func (a *c13) termination() {
-	c := a.c
-	fd := c.P.Decl(a.curve)
-	name := c.P.FuncName(a.curve)
-	n := 0
-	bad := false
-	// outer loops = for statements at the top level of the body
-	for _, st := range fd.Body.List {
-		loop, ok := st.(*ast.ForStmt)
-		if !ok {
-			continue
-		}
-		n++
-		entry := collectEntry(a.info, fd.Body.List, loop)
-		for _, p := range stutterPaths(a.info, loop) {
-			ef := entry.clone()
-			understood := true
-			for _, cd := range p.conds {
-				if !ef.constrain(a.info, cd.e, cd.truth) {
-					understood = false
-				}
-			}
-			if !understood {
-				continue
-			}
-			if ok, wit := ef.feasible(); ok {
-				var cs []string
-				for _, cd := range p.conds {
-					neg := ""
-					if !cd.truth {
-						neg = "not "
-					}
-					cs = append(cs, neg+"("+src(cd.e)+")")
-				}
-				c.Bad("C13.R1", name, loop.Pos(), "the loop has a path back to its header that changes no variable its conditions read (%s); it is taken on the very first iteration when %s, so Simplify never returns for such inputs", strings.Join(cs, ", "), wit)
-				bad = true
-				break
-			}
-		}
-	}
-	c.Evals(n)
-	if n == 0 {
-		c.OK("C13.R1", name, fd.Pos(), "no top-level scan loop")
-	} else if !bad {
-		c.OK("C13.R1", name, fd.Pos(), "%d outer loop(s): no stutter path feasible on the first iteration", n)
-	}
-}
-
-// ---------------------------------------------------------------- R2
-
-func (a *c13) subsequence() {
-	c := a.c
-	fd := c.P.Decl(a.curve)
-	name := c.P.FuncName(a.curve)
-	ps := paramVars(a.info, fd.Type)
-	curve := ps[0]
-	sc := newFnScope(a.info, fd.Body)
-	msg := ""
-	var pos token.Pos = fd.Pos()
-	prob := func(p token.Pos, s string) {
-		if msg == "" {
-			msg, pos = s, p
-		}
-	}
-	// output variable: the one returned
-	var out types.Object
-	ast.Inspect(fd.Body, func(n ast.Node) bool {
-		if r, ok := n.(*ast.ReturnStmt); ok && len(r.Results) == 1 {
-			if o := objOf(a.info, r.Results[0]); o != nil {
-				out = o
-			} else if !isNilConst(a.info, r.Results[0]) {
-				prob(r.Pos(), "returns `"+src(r.Results[0])+"`")
-			}
-		}
-		return true
-	})
-	if out == nil {
-		c.Unk("C13.R2", name, fd.Pos(), "output variable not found")
-		return
-	}
-	// fresh: first def is make(T, 0, …)
-	fresh := false
-	if ds := sc.defs[out]; len(ds) > 0 && ds[0] != nil {
-		if call, ok := unparen(ds[0]).(*ast.CallExpr); ok && builtinName(a.info, call) == "make" && len(call.Args) >= 2 {
-			if k, ok := constInt(a.info, call.Args[1]); ok && k == 0 {
-				fresh = true
-			}
-		}
-	}
-	if !fresh {
-		prob(fd.Pos(), "output is not a fresh empty slice (it may alias the input)")
-	}
-	// every write to out is out = append(out, curve[e]); curve is never written
-	var appends []*ast.AssignStmt
-	ast.Inspect(fd.Body, func(n ast.Node) bool {
-		switch s := n.(type) {
-		case *ast.AssignStmt:
-			for i, l := range s.Lhs {
-				if rootObj(a.info, l) == curve {
-					prob(s.Pos(), "the input curve is written: `"+src(s)+"`")
-				}
-				if objOf(a.info, l) == out {
-					if i == 0 && len(s.Rhs) == 1 {
-						if call, ok := unparen(s.Rhs[0]).(*ast.CallExpr); ok {
-							if builtinName(a.info, call) == "make" {
-								continue
-							}
-							if builtinName(a.info, call) == "append" && len(call.Args) == 2 && objOf(a.info, call.Args[0]) == out {
-								if ix, ok := unparen(call.Args[1]).(*ast.IndexExpr); ok && objOf(a.info, ix.X) == curve {
-									appends = append(appends, s)
-									continue
-								}
-								if call.Ellipsis.IsValid() && objOf(a.info, call.Args[1]) == curve {
-									continue // the whole curve copied: trivially an order-preserving subsequence with both endpoints
-								}
-								prob(s.Pos(), "`"+src(call.Args[1])+"` is appended to the output but is not a vertex of the input curve")
-								continue
-							}
-						}
-					}
-					prob(s.Pos(), "output modified by `"+src(s)+"`")
-				} else if rootObj(a.info, l) == out && objOf(a.info, l) != out {
-					prob(s.Pos(), "output element overwritten by `"+src(s)+"`")
-				}
-			}
-		case *ast.IncDecStmt:
-			if rootObj(a.info, s.X) == curve {
-				prob(s.Pos(), "the input curve is written")
-			}
-		}
-		return true
-	})
-	if len(appends) == 0 {
-		prob(fd.Pos(), "nothing is appended to the output")
-	}
-	// first vertex: the first statement of the top-level scan loop appends curve[i] with i == 0 at entry
-	for _, st := range fd.Body.List {
-		loop, ok := st.(*ast.ForStmt)
-		if !ok {
-			continue
-		}
-		entry := collectEntry(a.info, fd.Body.List, loop)
-		okFirst := false
-		if len(loop.Body.List) > 0 {
-			if as, ok := loop.Body.List[0].(*ast.AssignStmt); ok && len(appends) > 0 && as == appends[0] {
-				ix := unparen(unparen(as.Rhs[0]).(*ast.CallExpr).Args[1]).(*ast.IndexExpr)
-				if l := entry.lin(a.info, ix.Index); l.ok && l.k == 0 && l.c == 0 {
-					okFirst = true
-				}
-			}
-		}
-		if !okFirst {
-			prob(loop.Pos(), "the scan does not start by keeping the curve's first vertex")
-		}
-		// exit discipline
-		a.exitDiscipline(loop, curve, out, prob)
-	}
-	if msg != "" {
-		c.Bad("C13.R2", name, pos, "%s", msg)
-	} else {
-		c.OK("C13.R2", name, fd.Pos(), "%d append sites, all input vertices; first vertex kept; exit only after the last vertex", len(appends))
-	}
-}
-
-// exitDiscipline: every break of the scan loop is `if flag { break }`; every
-// `flag = true` directly follows `out = append(out, curve[E])` inside an if
-// whose condition establishes E == len(curve)-1.
-func (a *c13) exitDiscipline(loop *ast.ForStmt, curve, out types.Object, prob func(token.Pos, string)) {
-	brk, _, rets := earlyExits(loop.Body)
-	flags := map[types.Object]bool{}
-	for _, r := range rets {
-		prob(r.Pos(), "return inside the scan loop bypasses the last-vertex append")
-	}
-	if loop.Cond != nil {
-		prob(loop.Pos(), "scan loop has a condition: it can exit without keeping the last vertex")
-	}
-	for _, b := range brk {
-		path := enclosing(loop.Body, b)
-		okGuard := false
-		for i := len(path) - 1; i >= 0; i-- {
-			if is, ok := path[i].(*ast.IfStmt); ok {
-				if o := objOf(a.info, is.Cond); o != nil && len(is.Body.List) == 1 && is.Body.List[0] == ast.Stmt(b) {
-					flags[o] = true
-					okGuard = true
-				}
-				break
-			}
-		}
-		if !okGuard {
-			prob(b.Pos(), "the scan loop is left by a break that is not guarded by the exit flag")
-		}
-	}
-	if len(brk) == 0 {
-		prob(loop.Pos(), "the scan loop has no exit")
-	}
-	// assignments flag = true
-	ast.Inspect(loop.Body, func(n ast.Node) bool {
-		blk, ok := n.(*ast.BlockStmt)
-		if !ok {
-			return true
-		}
-		for i, st := range blk.List {
-			as, ok := st.(*ast.AssignStmt)
-			if !ok || len(as.Lhs) != 1 || !flags[objOf(a.info, as.Lhs[0])] {
-				continue
-			}
-			if v := constOf(a.info, as.Rhs[0]); v == nil || v.String() != "true" {
-				continue
-			}
-			okPrev := false
-			if i > 0 {
-				if prev, ok := blk.List[i-1].(*ast.AssignStmt); ok && len(prev.Rhs) == 1 {
-					if call, ok := unparen(prev.Rhs[0]).(*ast.CallExpr); ok && builtinName(a.info, call) == "append" && len(call.Args) == 2 && objOf(a.info, call.Args[0]) == out {
-						if ix, ok := unparen(call.Args[1]).(*ast.IndexExpr); ok && objOf(a.info, ix.X) == curve {
-							// enclosing if establishes index == len(curve)-1
-							path := enclosing(loop.Body, blk)
-							for k := len(path) - 1; k >= 0; k-- {
-								if is, ok := path[k].(*ast.IfStmt); ok && is.Body == blk {
-									if b, ok := unparen(is.Cond).(*ast.BinaryExpr); ok && b.Op == token.EQL {
-										sc := newFnScope(a.info, loop)
-										for _, pr := range [][2]ast.Expr{{b.X, b.Y}, {b.Y, b.X}} {
-											af := sc.aff(pr[1])
-											if sameExpr(a.info, pr[0], ix.Index) && af.ok && af.K == -1 && af.Of != nil && objOf(a.info, af.Of) == curve {
-												okPrev = true
-											}
-										}
-									}
-									break
-								}
-							}
-						}
-					}
-				}
-			}
-			if !okPrev {
-				prob(as.Pos(), "the exit flag is raised without having just appended the curve's last vertex: the simplified curve may lose its endpoint")
-			}
-		}
-		return true
-	})
-}
-
-// ---------------------------------------------------------------- R3
-
-func (a *c13) vetting() {
-	c := a.c
-	fd := c.P.Decl(a.curve)
-	name := c.P.FuncName(a.curve)
-	ps := paramVars(a.info, fd.Type)
-	curve, others := ps[0], ps[1]
-	var out types.Object
-	ast.Inspect(fd.Body, func(n ast.Node) bool {
-		if r, ok := n.(*ast.ReturnStmt); ok && len(r.Results) == 1 {
-			if o := objOf(a.info, r.Results[0]); o != nil {
-				out = o
-			}
-		}
-		return true
-	})
-	// facts:  "vet|<iVar>|<E src>"  segment (curve[i], curve[E]) is adjacent-or-vetted for current values
-	//         "ok|<var>"            curve[var] is adjacent-or-vetted relative to the previous kept vertex
-	//         "anchor|<var>"        curve[var] is the current kept vertex (already in the output)
-	type site struct {
-		as  *ast.AssignStmt
-		idx ast.Expr
-		ok  bool
-	}
-	sites := map[*ast.AssignStmt]*site{}
-	kill := func(s Facts, v types.Object) {
-		for f := range s {
-			parts := strings.Split(f, "|")
-			for _, p := range parts[1:] {
-				for _, tok := range strings.FieldsFunc(p, func(r rune) bool {
-					return !(r == '_' || r >= '0' && r <= '9' || r >= 'a' && r <= 'z' || r >= 'A' && r <= 'Z')
-				}) {
-					if tok == v.Name() {
-						delete(s, f)
-					}
-				}
-			}
-		}
-	}
-	cl := &FactsClient{}
-	cl.OnBranch = func(cond ast.Expr, truth bool, s Facts) Facts {
-		if truth {
-			return s
-		}
-		// cond false with cond = A && (T1 || T2 || T3): !A (adjacency) or all tests false
-		b, ok := unparen(cond).(*ast.BinaryExpr)
-		if !ok || b.Op != token.LAND {
-			return s
-		}
-		iv, e := a.adjacencyAtom(b.X)
-		if iv == nil {
-			return s
-		}
-		var tests []*ast.CallExpr
-		var collect func(x ast.Expr) bool
-		collect = func(x ast.Expr) bool {
-			x = unparen(x)
-			if bb, ok := x.(*ast.BinaryExpr); ok && bb.Op == token.LOR {
-				return collect(bb.X) && collect(bb.Y)
-			}
-			if call, ok := x.(*ast.CallExpr); ok {
-				tests = append(tests, call)
-				return true
-			}
-			return false
-		}
-		if !collect(b.Y) {
-			return s
-		}
-		// each test: T(curve[i], curve[E], set); sets must include kept output, remaining input, other curves
-		var T *types.Func
-		cover := map[string]bool{}
-		for _, t := range tests {
-			f := callee(a.info, t)
-			if f == nil || c.P.Decl(f) == nil || len(t.Args) != 3 {
-				return s
-			}
-			if T == nil {
-				T = f
-			} else if T != f {
-				return s
-			}
-			a0, ok0 := unparen(t.Args[0]).(*ast.IndexExpr)
-			a1, ok1 := unparen(t.Args[1]).(*ast.IndexExpr)
-			if !ok0 || !ok1 || objOf(a.info, a0.X) != curve || objOf(a.info, a1.X) != curve || objOf(a.info, a0.Index) != iv || src(a1.Index) != src(e) {
-				return s
-			}
-			if objOf(a.info, t.Args[2]) == others {
-				cover["others"] = true
-			} else if mentions(a.info, t.Args[2], out) {
-				cover["kept"] = true
-			} else if mentions(a.info, t.Args[2], curve) {
-				cover["remaining"] = true
-			}
-		}
-		if cover["others"] && cover["kept"] && cover["remaining"] {
-			s[fmt.Sprintf("vet|%s|%s", iv.Name(), src(e))] = true
-		}
-		return s
-	}
-	cl.OnStmt = func(n ast.Node, s Facts) Facts {
-		switch st := n.(type) {
-		case *ast.AssignStmt:
-			// append sites
-			if len(st.Lhs) == 1 && len(st.Rhs) == 1 && objOf(a.info, st.Lhs[0]) == out && out != nil {
-				if call, ok := unparen(st.Rhs[0]).(*ast.CallExpr); ok && builtinName(a.info, call) == "append" && len(call.Args) == 2 {
-					if ix, ok := unparen(call.Args[1]).(*ast.IndexExpr); ok && objOf(a.info, ix.X) == curve {
-						si := sites[st]
-						if si == nil {
-							si = &site{as: st, idx: ix.Index, ok: true}
-							sites[st] = si
-						}
-						v := objOf(a.info, ix.Index)
-						good := false
-						if v != nil && (s["ok|"+v.Name()] || s["anchor|"+v.Name()]) {
-							good = true
-						}
-						if !good {
-							si.ok = false
-						}
-						if v != nil {
-							s["anchor|"+v.Name()] = true
-						}
-						return s
-					}
-				}
-			}
-			for i, l := range st.Lhs {
-				v := objOf(a.info, l)
-				if v == nil {
-					continue
-				}
-				// i = E where vet|i|E holds  ⇒ ok|i
-				promote := false
-				if len(st.Lhs) == len(st.Rhs) && (st.Tok == token.ASSIGN || st.Tok == token.DEFINE) {
-					if s[fmt.Sprintf("vet|%s|%s", v.Name(), src(st.Rhs[i]))] {
-						promote = true
-					}
-				}
-				kill(s, v)
-				if promote {
-					s["ok|"+v.Name()] = true
-				}
-				if len(st.Lhs) == len(st.Rhs) {
-					if k, ok := constInt(a.info, st.Rhs[i]); ok && k == 0 {
-						s["anchor|"+v.Name()] = true // index 0: the scan's start, nothing is skipped
-					}
-				}
-			}
-		case *ast.IncDecStmt:
-			if v := objOf(a.info, st.X); v != nil {
-				kill(s, v)
-			}
-		}
-		return s
-	}
-	init := Facts{}
-	// the very first append keeps curve[i] with i = 0: nothing is skipped
-	for _, st := range fd.Body.List {
-		if as, ok := st.(*ast.AssignStmt); ok && len(as.Lhs) == 1 && len(as.Rhs) == 1 {
-			if k, ok := constInt(a.info, as.Rhs[0]); ok && k == 0 {
-				if v := objOf(a.info, as.Lhs[0]); v != nil {
-					init["anchor|"+v.Name()] = true
-				}
-			}
-		}
-	}
-	fl := &Flow[Facts]{C: cl, Info: a.info}
-	fl.Run(fd.Body, init)
-	if len(fl.Unsupported) > 0 {
-		c.Unk("C13.R3", name, fl.Unsupported[0].Pos(), "unsupported control flow")
-		return
-	}
-	if len(sites) == 0 {
-		c.Unk("C13.R3", name, fd.Pos(), "no append sites found")
-		return
-	}
-	k := 0
-	var keys []*site
-	for _, si := range sites {
-		keys = append(keys, si)
-	}
-	// stable order by position
-	for i := range keys {
-		for j := i + 1; j < len(keys); j++ {
-			if keys[j].as.Pos() < keys[i].as.Pos() {
-				keys[i], keys[j] = keys[j], keys[i]
-			}
-		}
-	}
-	for _, si := range keys {
-		k++
-		cons := fmt.Sprintf("%s#append:curve[%s]", name, src(si.idx))
-		if si.ok {
-			c.OK("C13.R3", cons, si.as.Pos(), "kept vertex is the scan's start or adjacent-or-vetted")
-		} else {
-			c.Bad("C13.R3", cons, si.as.Pos(), "`%s` keeps a vertex that may lie several input vertices after the previous kept one without the replacing segment having been tested against kept output, remaining input and the other curves: a simple input can become self-intersecting", src(si.as))
-		}
-	}
-}
-
-// adjacencyAtom: e is `j > i+2` (so that its negation means the candidate E=j-1 is
-// adjacent to i); returns i and the candidate vertex expression j-1.
-func (a *c13) adjacencyAtom(e ast.Expr) (types.Object, ast.Expr) {
-	b, ok := unparen(e).(*ast.BinaryExpr)
-	if !ok || b.Op != token.GTR {
-		return nil, nil
-	}
-	j := objOf(a.info, b.X)
-	r, ok := unparen(b.Y).(*ast.BinaryExpr)
-	if j == nil || !ok || r.Op != token.ADD {
-		return nil, nil
-	}
-	i := objOf(a.info, r.X)
-	k, kok := constInt(a.info, r.Y)
-	if i == nil || !kok || k > 2 {
-		return nil, nil
-	}
-	// j <= i+k with k<=2  ⇒  j-1 <= i+1: the candidate j-1 is i or i+1
-	return i, &ast.BinaryExpr{X: &ast.Ident{Name: j.Name()}, Op: token.SUB, Y: &ast.BasicLit{Kind: token.INT, Value: "1"}}
-}
 
 // exactCrossing: tolerances in the intersection routine reached from the simplicity test are zero.
 func (a *c13) exactCrossing() {
